@@ -455,6 +455,15 @@ def rule_vi7(A: Analysis, rep):
         if f.fq.startswith("conductor.envs") or f.fq.startswith("conductor.explorer"):
             continue
         for c in walk_local(f.node):
+            # the transaction mode of a connection is never changed after it was opened
+            if isinstance(c, (ast.Assign, ast.AugAssign, ast.AnnAssign)):
+                tgts = c.targets if isinstance(c, ast.Assign) else [c.target]
+                for tg in tgts:
+                    if isinstance(tg, ast.Attribute) and tg.attr in ("isolation_level", "autocommit"):
+                        rep.bad("VI7", "transaction mode changed", c, "`%s` (in %s) switches the connection's transaction handling: later INSERTs would commit by themselves and "
+                                "commit_changes()/rollback_changes() would have nothing to commit or undo" % (norm(c)[:80], f.fq))
+            if isinstance(c, ast.Call) and norm(c.func) == "setattr" and len(c.args) >= 2 and isinstance(c.args[1], ast.Constant) and c.args[1].value in ("isolation_level", "autocommit"):
+                rep.bad("VI7", "transaction mode changed", c, "setattr(..., %r, ...) switches the connection's transaction handling" % c.args[1].value)
             if isinstance(c, ast.With):
                 for it in c.items:
                     bt = A.res.type_of(it.context_expr, f)
